@@ -67,6 +67,7 @@ CLAIMS = {
             "composed system - any schedule of threads, crashes at any point - the worker processes ever started are numnodes + min(failedNodes, budget), with consecutive ids",
             "invariant by induction over the controller loop, generic in the scheduler (Lean 4) ; whole-system simulation on the real DSession/NodeManager/WorkerController stack whose controller trace is replayed by the Lean model; differential check of the default-budget function"),
     "C12": ("Lean theorems (any scheduler, any event sequence): replacement ids are gw k, gw k+1, ... in start order, so all worker ids of a run are pairwise distinct and never reused; "
+            "WHOLE SYSTEM, every scheduler (C12_sys_identities_unique): after any execution of the composed system the active workers are pairwise distinct started processes and the process list has exactly numnodes + min(failedNodes, budget) positions; "
             "environment variables, fixtures, run uid and per-worker base temporary directories are validated on real runs (partial: not modelled)",
             "counter invariant by induction over the controller loop (Lean 4) ; whole-system simulation with the real execnet id allocator and real WorkerController.setup; end-to-end pytest runs recording environment, fixtures, basetemp"),
     "C11": ("Lean theorems about the DSession model for every scheduler that is quiet while all its nodes shut down (proved for the scheduler of each of the six modes): "
@@ -88,7 +89,8 @@ CLAIMS = {
             "Partial: load only, equal collections (else F4), no undecodable message (else F7b); the other modes are validated by the whole-system simulation, not proved",
             "receiver model theorems by induction over the message stream, handler case analysis; whole-system invariant layers + totality of the scheduler functions under them (Lean 4) ; differential correspondence of the real process_from_remote; whole-system simulation with deaths at every lifecycle point and undecodable messages"),
     "C04": ("Lean theorems: per worker the receiver posts the worker's events exactly once in the order sent; a test report is published tagged with its worker and counted once; "
-            "for any sequence of collection reports from any workers the published ones are the distinct texts in first-occurrence order, each counted once. Partial: field fidelity of "
+            "for any sequence of collection reports from any workers the published ones are the distinct texts in first-occurrence order, each counted once; WHOLE SYSTEM, every scheduler "
+            "(C04_sys_collection_errors_published_once): after any execution of the composed system - reports interleaved with tests, crashes, replacements reporting the same error again - the published collection reports are pairwise distinct. Partial: field fidelity of "
             "reports and the tally equality with a single-process run are validated on real runs",
             "induction over message / report sequences (Lean 4) ; differential correspondence of the receiver and of DSession; end-to-end runs compared with -n0 (tallies, ids, fields, exit status, per-worker order)"),
     "C02": ("Lean theorems for the two mechanisms: every check_schedule decision of the load scheduler for a live node leaves it with at least two queued tests, the shutdown signal or an "
